@@ -70,7 +70,7 @@ func init() {
 		"Decides sibling agreement of QuoInteger and Rem: both align with upscale and propagate its error, divide exactly once with truncating Quo/QuoRem on the aligned coefficients in order, test DivisionImpossible on that very quotient's digit count; QuoInteger's sign is x≠y and its exponent 0, Rem's sign is x's; Rem rounds once; the divisor is behind y's IsZero test.",
 		[]string{"the identity x = q·y + r itself (math/big arithmetic and alignment arithmetic)"})
 	prop("C11", "Sqrt is correctly rounded; Cbrt is within one unit and exact on perfect cubes",
-		[]string{"C11.R1", "C11.R2", "C11.R3", "C04.R4", "C03.R5", "C12.R5"},
+		[]string{"C11.R1", "C11.R2", "C11.R3", "C11.R4", "C04.R4", "C03.R5", "C12.R5"},
 		"Decides only structure: Sqrt's final rounding runs with Precision = c.Precision and Rounding = half-even on a working context of larger precision; Cbrt returns zero flags only under operand == d³; both take specials from rootSpecials; their loops are bounded and their wrapper errors surfaced.",
 		[]string{"correct rounding of Sqrt and the 1-ulp bound of Cbrt: real-analysis error bounds of Newton iterations with tuned guard digits — no sound static argument in reach"})
 	prop("C12", "Exp, Ln, Log10 and Pow are accurate to one unit in the last place",
@@ -90,7 +90,7 @@ func init() {
 		"Decides: the Form constants have the order CmpTotal relies on and cmpOrder is ±(Form+1); on every path of Decimal.Cmp that returns a coefficient comparison the result is negated exactly for negative operands and the larger-exponent side is the rescaled one; CmpTotal's exponent tie-break flips for negatives (path enumeration); comparisons write nothing; Context.Cmp has the NaN prologue.",
 		[]string{"order axioms over triples; correctness of the digit-count shortcut (numeric)"})
 	prop("C16", "BigInt behaves exactly like math/big.Int",
-		[]string{"C16.R1", "C16.R2", "C16.R3", "C16.R4", "C16.R5", "C18.R5", "C05.R1", "C05.R2", "C06.R3"},
+		[]string{"C16.R1", "C16.R2", "C16.R3", "C16.R4", "C16.R5", "C16.R6", "C18.R5", "C05.R1", "C05.R2", "C06.R3"},
 		"Decides wrapper discipline for all 60+ methods: same-named math/big call on the receiver's view with parameters' views in order; every written view is written back with updateInner on every successful path and operands never are; zero is never negative on any fast path; fast paths read operands before writing (RAW) and never write them.",
 		[]string{"value equality of the uint64 fast-path arithmetic with math/big; text and bit-length results"})
 	prop("C17", "Integer and float conversions and Modf are exact",
